@@ -434,6 +434,15 @@ func (x *exec) callbackCall(s *State, fv Value, args []Value, res *types.Tuple, 
 						if p.Name() == fl[0] {
 							if pf, ok := t.args[i].(FuncV); ok && pf.Opaque == f.Opaque {
 								e.Assumed[shortFuncKey(t.fn)+": calls through parameter "+fl[0]+" do not modify the state this function works on"] = true
+								// ghost count of the calls made through this parameter:
+								// "ghostvar Ghost_calls_<param> int" in the contract
+								if cell, ok := t.ghostCells["Ghost_calls_"+fl[0]]; ok {
+									cur, has := s.cells[cell].(*Term)
+									if !has {
+										cur = e.C.IntC(0)
+									}
+									s.cells[cell] = e.C.Add(cur, e.C.IntC(1))
+								}
 								var vals []Value
 								for i := 0; i < res.Len(); i++ {
 									vals = append(vals, e.fresh(res.At(i).Type(), "cb", s))
